@@ -530,6 +530,16 @@ impl<S: Read> Parser<S> {
         let len = len as usize;
         let mut rdata = Vec::with_capacity(len);
         while rdata.len() < len {
+            if self
+                .reader
+                .peek_octet()?
+                .map_or(false, |o| b" \t();\r\n".contains(&o))
+            {
+                // RFC 3597 § 5 allows the hexadecimal data to be split
+                // into several whitespace-separated words.
+                self.reader
+                    .skip_to_next_field(ErrorKind::UnexpectedEndOfHexRdata)?;
+            }
             let high_nibble = self.parse_ascii_hex_digit()?;
             let low_nibble = self.parse_ascii_hex_digit()?;
             rdata.push((high_nibble << 4) | low_nibble);
